@@ -108,16 +108,26 @@ def systems(tier):
 
 def pts_longpiece(tier):
     algs = ALGS if tier == 'thorough' else ['md5', 'sha1', 'sha256', 'sha512', 'blake256', 'blake2s', 'blake2b']
-    return [(a, nb) for a in algs for nb in ((257, 300) if tier == 'thorough' else (257,))]
+    pts = [(a, nb) for a in algs for nb in ((257, 300) if tier == 'thorough' else (257,))]
+    if tier == 'thorough':
+        pts += [('md5', (1 << 15) + 1), ('md4', (1 << 15) + 2)]        # a second piece of more than 2 MiB
+    return pts
 
 
 def run_longpiece(ctx, pt):
     """one non-final piece of more than 256 blocks (sampled: the property enumerates cut sets up to 4 blocks)"""
     a, nb = pt
     bl = HF.blocklen(a)
-    M = expander(nb * bl + bl + 7, 40)
+    M = expander(nb * bl + bl + 7, 40) if nb < 1000 else (expander(4096, 40) * (nb * bl // 4096 + 2))[:nb * bl + bl + 7]
     o = HF.make(a)
     o.initstate()
+    if nb >= 1000:
+        # the long piece is not the first one
+        ctx.eq('C14/%s/long-piece' % a, ctx.attempt(lambda: o.update(M[:bl], padding=False))[0], 'ok')
+        ctx.eq('C14/%s/long-piece' % a, ctx.attempt(lambda: o.update(M[bl:nb * bl], padding=False))[0], 'ok')
+        ctx.eq('C14/%s/long-piece/bit-counter' % a, o.padmethod.bitcnt, 8 * nb * bl)
+        ctx.eq('C14/%s/long-piece/close' % a, ctx.attempt(lambda: o.update(M[nb * bl:], padding=True)), ('ok', HF.ref(a, M)))
+        return
     ctx.eq('C14/%s/long-piece' % a, ctx.attempt(lambda: o.update(M[:nb * bl], padding=False))[0], 'ok')
     ctx.eq('C14/%s/long-piece/bit-counter' % a, o.padmethod.bitcnt, 8 * nb * bl)
     ctx.eq('C14/%s/long-piece' % a, ctx.attempt(lambda: o.update(M[nb * bl:(nb + 1) * bl], padding=False))[0], 'ok')
@@ -189,7 +199,7 @@ def subchecks():
         hsub('pieces', systems, 20,
              bound='16 hashes (MD4, MD5, SHA-0, SHA-1, SHA-224/256/384/512, SHA-512/224, SHA-512/256, BLAKE-224/256/384/512, BLAKE2s, BLAKE2b) x message of 0..3 (thorough 0..4) blocks + tail in {0,1,blen-lenfield-1,blen-lenfield,blen-1}, plus messages of 6 and 9 (thorough 17) blocks + 1 byte; events: feed next 0/1/2/3 blocks, close with the rest; BFS over all histories (all compositions, empty pieces at every position), states deduplicated by (chaining value, bit counter, pad flag, position); each piece compared with the one-piece prefix state of a fresh object, each closing digest with the reference digest'),
         Sub('long-pieces', pts_longpiece, run_longpiece, engine='H', exhaustive=False,
-            bound='one non-final piece of 257 (thorough also 300) blocks, one more block, closing piece of 7 bytes; 7 hashes (thorough all 16)'),
+            bound='one non-final piece of 257 (thorough also 300 blocks, and for MD4/MD5 a second piece of more than 2 MiB), one more block, closing piece of 7 bytes; 7 hashes (thorough all 16)'),
         Sub('nilsimsa-long-streams', pts_nil_long, run_nil_long, engine='H', exhaustive=False,
             bound='Nilsimsa stream of 66000 (thorough also 70000, and 1 MiB + 700) bytes cut at {65530}, {65540,65600}, {100,65534,65536} vs the one-shot digest'),
         Sub('nilsimsa-cuts', pts_nil, run_nil, engine='D',
